@@ -26,10 +26,14 @@ INFO = {
     "equal the documented order evaluated by a reference over the expected terminals of the state: highest priority, "
     "string/keyword over regex, longest, prefer, else ambiguous.  With lexical disambiguation off the set of "
     "(terminal, value) over the GLR forest's trees must equal all matching expected terminals of the highest matching "
-    "priority.  Where a matching candidate carries an explicit finish/nofinish mark only the weaker statement is "
-    "asserted (the chosen terminal matches and has the highest matching priority).",
+    "priority.  Where a matching candidate carries an explicit finish/nofinish mark (LR): the scan follows the documented "
+    "order (strings/keywords longest first, then other recognisers; order within equal rank left open) and ends at the first "
+    "match that finishes (marked finish, or an unmarked string/keyword; nofinish never ends it); the outcome must be "
+    "longest-match/prefer over one of the candidate sets admissible that way.  GLR with marks: only the weaker statement "
+    "(every pursued terminal matches and has the highest matching priority).  The table is also taken through the real "
+    "table_to_serializable/table_from_serializable round trip (what a .pgc load gives) before parsing.",
     "bounds": {
-        "quick": {"pools": "5 in the 3-state skeleton + 3 in a flat skeleton (all four terminals expected in one LR state)", "priorities": "0..1", "len(w)": "<= 3", "marks": "none + 2 mark vectors on one pool"},
+        "quick": {"pools": "5 in the 3-state skeleton + 3 in a flat skeleton (all four terminals expected in one LR state)", "priorities": "0..1", "len(w)": "<= 3", "marks": "none + 2 mark vectors on one pool (3-state) + finish/nofinish on the last-sorted terminal of a flat pool with priorities 1..2", "persisted": "1 pool, LR and GLR"},
         "thorough": {"pools": 12, "priorities": "0..2", "len(w)": "<= 3", "ignore_case": "both"},
     },
     "outside": "priorities >= 10^7 or string terminals >= 500 chars (fixed-width sort key), more than 4 candidate "
@@ -38,7 +42,7 @@ INFO = {
         "regex terminals run on the validated regex model vp/pyre.py (pattern text = what the real code compiled); input chars <= 0x7f",
         "terminal attributes are assigned on the Terminal objects of a grammar parsed once; the LR automaton is built once "
         "(terminal priorities do not enter it) and LRTable(states) is re-run per path",
-        "explicit finish/nofinish on a matching candidate: weaker assertion (their meaning is to alter the search)",
+        "explicit finish/nofinish on a matching candidate: the order of equal-rank terminals in the scan is left open (all admissible candidate sets accepted)",
     ],
 }
 
@@ -137,6 +141,25 @@ def cases(tier, seed):
                         "params": {"pool": pn, "mode": "lr", "pa": pa, "pb": pb, "prmax": prmax, "marks": mv, "icase": False},
                         "budget_s": 3000,
                     })
+    # a finish/nofinish mark on the terminal that sorts last of its priority group, over a lower non-zero priority
+    for pn in (["regex-overlap"] if tier == "quick" else ["regex-overlap", "short-prefer", "regex-only"]):
+        for mv in ([True, None, None, None], [False, None, None, None]):
+            for pa in (1, 2):
+                for pb in (1, 2):
+                    out.append({
+                        "name": "%s|lr-flat|marks=%s|prior 1..2|prior(A)=%d|prior(B)=%d" % (pn, "".join("-" if m is None else "FN"[not m] for m in mv), pa, pb),
+                        "params": {"pool": pn, "mode": "lr", "skel": "flat", "pa": pa, "pb": pb, "prmin": 1, "prmax": 2, "marks": mv, "icase": False},
+                        "budget_s": 3000,
+                    })
+    # the table saved and loaded back through the real (de)serialisation, as from a .pgc file
+    for pn in (["str-vs-regex"] if tier == "quick" else ["str-vs-regex", "regex-overlap", "keyword"]):
+        for mode in ("lr", "glr"):
+            for pa in range(prmax + 1):
+                out.append({
+                    "name": "%s|%s|persisted table|prior(A)=%d" % (pn, mode, pa),
+                    "params": {"pool": pn, "mode": mode, "pa": pa, "pb": None, "prmax": prmax, "marks": [None] * 4, "icase": False, "persist": True},
+                    "budget_s": 3000,
+                })
     if tier != "quick":
         for pn in ("case", "str-vs-regex"):
             for pa in range(prmax + 1):
@@ -207,14 +230,49 @@ def build(params, symbolic):
             return ("none",)
         top = max(prio[s] for s in m)
         m1 = {s: L for s, L in m.items() if prio[s] == top}
-        if any(marks[SLOTS.index(s)] is not None for s in m):
-            return ("weak", set(m1))
+        marked = [s for s in m1 if marks[SLOTS.index(s)] is not None]
         if mode == "glr":
+            if any(marks[SLOTS.index(s)] is not None for s in m):
+                return ("weak", set(m1))
             return ("all", m1)
+        if not marked and any(marks[SLOTS.index(s)] is not None for s in m):
+            marked = ["-"]  # a marked lower-priority match: same treatment, no extra candidate sets
+        if marked:
+            # Explicit marks alter the scan.  The scan follows the documented order (strings/keywords, longest
+            # first, then the other recognisers; the order within equal rank is left open here) and ends at the
+            # first match that finishes: a terminal marked `finish`, or an unmarked string/keyword; `nofinish`
+            # never ends it.  The candidates are the matches up to there; longest-match/prefer decide among
+            # them.  Every candidate set admissible under some order of equal-rank terminals is evaluated; the
+            # real outcome must be one of them.
+            def rank(s):
+                return (0, -len(pool[s][1])) if is_stringlike(s) else (1, 0)
+
+            def finisher(s):
+                mk = marks[SLOTS.index(s)]
+                return mk is True or (mk is None and is_stringlike(s))
+
+            sets = []
+            for perm in itertools.permutations(sorted(m1)):
+                if any(rank(perm[k]) > rank(perm[k + 1]) for k in range(len(perm) - 1)):
+                    continue
+                sub = {}
+                for s in perm:
+                    sub[s] = m1[s]
+                    if finisher(s):
+                        break
+                if sub not in sets:
+                    sets.append(sub)
+            return ("multi", [longest_prefer(sub, prefer) for sub in sets], set(m1))
+        return doc_order(m1, prefer)
+
+    def doc_order(m1, prefer):
         strs = {s: L for s, L in m1.items() if is_stringlike(s)}
         m2 = strs if strs else m1
         if twin:
             m2 = m1
+        return longest_prefer(m2, prefer)
+
+    def longest_prefer(m2, prefer):
         longest = max(m2.values())
         m3 = [s for s, L in m2.items() if L == longest]
         if len(m3) > 1:
@@ -239,7 +297,7 @@ def build(params, symbolic):
         if params.get("pb") is not None and pb != params["pb"]:
             raise Pre()  # this worker's slice of the priority range
         for s in "BCD":
-            if prio[s] < 0 or prio[s] > params["prmax"]:
+            if prio[s] < params.get("prmin", 0) or prio[s] > params["prmax"]:
                 raise Pre()
         prefer = {"A": fa, "B": fb, "C": fc, "D": fd}
         for k, s in enumerate(SLOTS):
@@ -249,6 +307,12 @@ def build(params, symbolic):
         for st, items in orig_actions:  # same starting order on every path (engine requires determinism)
             st.actions = OrderedDict(items)
         table = T.LRTable(states, lexical_disambiguation=(mode == "lr"))
+        if params.get("persist"):
+            # what a user of a grammar file gets from the second construction on: the table saved and loaded back
+            from parglare.tables.persist import table_from_serializable, table_to_serializable
+
+            ser = table_to_serializable(table)
+            table = table_from_serializable(ser, grammar)
         if mode == "lr":
             parser = Parser(grammar, table=table, consume_input=False, build_tree=True)
         else:
@@ -328,13 +392,19 @@ def build(params, symbolic):
                 return "expected DisambiguationError over %r at %d, outcome %r" % (sorted(c[1]), pos, real)
             bump(stats, "ambiguous")
             return True
-        if c[0] == "weak":
-            ok = (real[0] == "ok" and len(real[1]) == len(seq) + 1 and real[1][-1][0] in c[1]) or (
-                real[0] == "amb" and real[1] <= c[1])
-            if not ok:
-                return "marked candidates: outcome %r not within top-priority matches %r" % (real, c[1])
-            bump(stats, "weak")
-            return True
+        if c[0] == "multi":
+            for alt in c[1]:
+                if alt[0] == "amb":
+                    if real[0] == "amb" and real[1] == alt[1]:
+                        bump(stats, "marked")
+                        return True
+                else:
+                    _, s, L = alt
+                    want = seq + [(s, w[pos : pos + L])]
+                    if real[0] == "ok" and len(real[1]) == len(want) and all(a[0] == b[0] and a[1] == b[1] for a, b in zip(real[1], want)):
+                        bump(stats, "marked")
+                        return True
+            return "marked candidates: outcome %r is not the documented order over any admissible candidate set of %r: %r" % (real, sorted(c[2]), c[1])
         _, s, L = c
         want = seq + [(s, w[pos : pos + L])]
         if real[0] != "ok" or len(real[1]) != len(want) or any(a[0] != b[0] or a[1] != b[1] for a, b in zip(real[1], want)):
